@@ -75,7 +75,21 @@ func runC14(e *Env) {
 			r.Check(name == strings.ToLower(name), "E4.names", key+"/lower", pos, "lower-case (Unpack lower-cases its input)", fmt.Sprintf("name %q is not lower-case: Unpack lower-cases its input, so the printed form can never be parsed back", name))
 			uapi, doc := documentedActions[name]
 			if !doc {
-				r.Bad("E4.names", key+"/documented", pos, fmt.Sprintf("name %q is not one of the documented action names", name))
+				// a name added later: it must be the name of a kernel action (SECCOMP_RET_<NAME>, up to a shortened or
+				// lengthened spelling) and be paired with exactly that action's value
+				nn := strings.ReplaceAll(name, "_", "")
+				matched := ""
+				for un, uv := range or.Consts {
+					if !strings.HasPrefix(un, "SECCOMP_RET_") || un == "SECCOMP_RET_DATA" || strings.HasPrefix(un, "SECCOMP_RET_ACTION") {
+						continue
+					}
+					sfx := strings.ToLower(strings.ReplaceAll(strings.TrimPrefix(un, "SECCOMP_RET_"), "_", ""))
+					if len(nn) >= 3 && len(sfx) >= 3 && (strings.HasPrefix(nn, sfx) || strings.HasPrefix(sfx, nn)) && uv == val {
+						matched = un
+					}
+				}
+				r.Check(matched != "", "E4.names", key+"/documented", pos, fmt.Sprintf("%q <-> %#x = %s (a kernel action beyond the seven documented names)", name, val, matched),
+					fmt.Sprintf("name %q is not one of the documented action names and is not paired with the kernel action of that name", name))
 				continue
 			}
 			r.Check(val == or.Consts[uapi], "E4.names", key+"/value", pos, fmt.Sprintf("%q <-> %#x = %s", name, val, uapi),
